@@ -682,6 +682,32 @@ func Run(r *hk.Run) {
 				r.Fail("accepted-blob-not-fetched-back", c.label+": fetch of accepted "+k, "bytes "+hk.Hex(v), out[:min(len(out), 80)], r.CaseOps())
 			}
 		}
+		// the history invariant (theorems C02_history_only_matching_within_cap / C02_history_on_any_store):
+		// after the whole sequence the store lists exactly the accepted-and-not-removed refs with their
+		// true sizes - no rejected offer, under any ref, left a blob behind
+		if e := c.op("enum - 100000"); strings.HasPrefix(e, "refs") {
+			listed := map[string]bool{}
+			bad := false
+			for _, tok := range strings.Fields(e)[1:] {
+				i := strings.LastIndexByte(tok, ':')
+				kb, ok := hk.UnHex(tok[:max(i, 0)])
+				v, held := c.accepted[string(kb)]
+				if i < 0 || !ok || !held || tok[i+1:] != strconv.Itoa(len(v)) {
+					r.Fail("store-holds-unaccepted-blob", c.label+": enumerate after the history lists "+tok,
+						"only accepted, not removed refs with their sizes", tok, r.CaseOps())
+					bad = true
+					break
+				}
+				listed[string(kb)] = true
+			}
+			if len(listed) != len(c.accepted) && !bad {
+				r.Fail("accepted-blob-not-enumerated", c.label+": enumerate after the history",
+					strconv.Itoa(len(c.accepted))+" refs", strconv.Itoa(len(listed))+" refs", r.CaseOps())
+			}
+			r.Hit("history-invariant:whole-store-enumerated")
+		} else {
+			r.Fail("enumerate-error", c.label+": enumerate after the history", "refs …", e[:min(len(e), 60)], r.CaseOps())
+		}
 		if t < 2 {
 			ops := r.CaseOps()
 			r.Sample(map[string]any{"tree": n.String(), "first_ops": ops[:min(len(ops), 5)]})
